@@ -326,6 +326,20 @@ def r_c02_mixed_notation_first_message(s4, repo, scratch):
             'observed': 'identical' if not bad else 'file %s printed as %r' % bad, 'failed': bool(bad)}
 
 
+def r_c08_smallest_layout_single_record(s4, repo, scratch):
+    """a file holding exactly one record of the smallest supported layout (NetBSD lastlog, 32 bytes) is printed"""
+    import struct
+    d = os.path.join(scratch, 'c08_one')
+    os.makedirs(d, exist_ok=True)
+    inp = os.path.join(d, 'lastlog')
+    open(inp, 'wb').write(struct.pack('<q8s16s', 1700000000, b'pts/0', b'192.168.1.5'))
+    rc, out, err = run_s4(s4, ['--color', 'never', '--tz-offset', '+00:00', inp])
+    got = out.replace(b'\0', b'').decode('utf-8', 'replace').strip()
+    want = "ll_time 1700000000 ll_line 'pts/0' ll_host '192.168.1.5'"
+    return {'name': 'C08.smallest_layout_single_record', 'input': inp, 'how_made': 'struct lastlog {int64 ll_time; char ll_line[8]; char ll_host[16]} with one record',
+            'cmd': '%s --color never --tz-offset +00:00 %s' % (s4, inp), 'expected': want, 'observed': got or '<nothing>', 'failed': got != want}
+
+
 RECIPES = {
     'C02': [r_c02_continuation_at_block_boundary, r_c02_mixed_notation_first_message],
     'C04': [r_c04_instants, r_c04_fractions],
@@ -334,7 +348,7 @@ RECIPES = {
     'C06': [r_c01_tie_order, r_c01_chronological, r_c01_submillisecond],
     'C13': [r_c13_field_order_fixedstruct, r_c13_align_widest_printed, r_c13_evtx_prepend_file_only],
     'C03': [r_c03_journal_before_inclusive, r_c03_evtx_window, r_c03_yearless_tie_at_after],
-    'C08': [r_c08_equal_times, r_c08_order],
+    'C08': [r_c08_equal_times, r_c08_order, r_c08_smallest_layout_single_record],
 }
 
 
